@@ -1,5 +1,6 @@
 import Model
 import Proofs.Walk
+import Proofs.GapLen
 import Proofs.DepGlobal
 import Proofs.DepAll
 import Proofs.DepMile
@@ -136,8 +137,38 @@ theorem forward_deps_respected_gaplength (e : Env) (wf : WF e) (tr : Tree e) (t 
 /-- what `depDate` is for an edge with a working-time gap of `n > 0` seconds and no gap duration: the walk over the project
     calendar from the slot the predecessor's date lies in -/
 theorem depDate_gaplength (e : Env) (dp : Dep) (dt : Int) (hn : dp.glen > 0) (hg : dp.gap = 0) :
-    depDate e dp dt = lenWalk e (e.size.toNat + 2) dp.glen (e.idx dt) dt := by
+    depDate e dp dt = lenWalk e (e.size.toNat + 3) dp.glen (e.idx dt) dt := by
   unfold depDate; simp [hn, hg]
+
+/-- **a working-time gap is measured exactly** (`Proofs/GapLen`): for an edge with `gaplength n` (and no gap duration), a
+    predecessor date `dt` at or after the project start, and a scoreboard that covers the horizon (`C11.horizon_covered`: true of
+    every elaborated project), the date the edge contributes, `out = depDate e dp dt`, is such that for some number `k` of slots
+    from the slot `dt` lies in: either the project working time in `[dt, out)` within those slots is EXACTLY `n` seconds and
+    `out` lies at or before the end of the last of them — no working slot skipped, none counted twice — or the horizon was
+    reached with less than `n` seconds of working time left in the project -/
+theorem gaplength_exact (e : Env) (wf : WF e) (dp : Dep) (dt : Int) (hn : dp.glen > 0) (hg : dp.gap = 0)
+    (hdt : e.start ≤ dt) (hsz : e.upper ≤ e.size + 1) :
+    ∃ k : Nat,
+      (worked e dt (depDate e dp dt) k (e.idx dt) = dp.glen ∧ depDate e dp dt ≤ e.time (e.idx dt + k)) ∨
+      (worked e dt (depDate e dp dt) k (e.idx dt) < dp.glen ∧ e.upper < e.idx dt + k) := by
+  rw [depDate_gaplength e dp dt hn hg]
+  have hfl := (Board.mk e.start e.stop e.G).rawIdx_floor wf.G_pos (t := dt) hdt
+  have hnn := (Board.mk e.start e.stop e.G).rawIdx_nonneg wf.G_pos (t := dt) hdt
+  simp only [Board.time, Board.rawIdx] at hfl hnn
+  apply lenWalk_exact e wf.G_pos _ dp.glen (e.idx dt) dt
+  · unfold Env.time Env.idx; exact hfl.1
+  · unfold Env.time Env.idx; exact Int.le_of_lt hfl.2
+  · exact hn
+  · have : 0 ≤ e.idx dt := by unfold Env.idx; exact hnn
+    have h2 : ((e.size.toNat + 3 : Nat) : Int) = (e.size.toNat : Int) + 3 := by push_cast; rfl
+    rw [h2]
+    have := Int.self_le_toNat e.size
+    omega
+
+/-- what `worked` measures: the overlap of `[a, b)` with each working slot of the project calendar among the `n` slots from `i` on -/
+theorem worked_step (e : Env) (a b : Int) (n : Nat) (i : Int) :
+    worked e a b (n + 1) i =
+      (if e.projWork i then max 0 (min b (e.time (i + 1)) - max a (e.time i)) else 0) + worked e a b n (i + 1) := rfl
 
 /-- one step of that walk, spelled out: in a working slot of the project calendar the time from the date to the end of the slot
     counts; if it covers what is left of the gap, the bound is the date plus what is left; otherwise the walk goes on from
